@@ -33,6 +33,8 @@ func (o cliOp) String() string {
 		return "get " + o.spn
 	case "sleep":
 		return fmt.Sprintf("sleep %v", o.d)
+	case "assume-pa":
+		return "assume-pa"
 	}
 	return o.kind
 }
@@ -41,6 +43,15 @@ func (o cliOp) String() string {
 // (whose goroutines live outside the bubble: sockets work across, and the fake clock stands still
 // while the client waits for the network).
 func runClientHistory(t *testing.T, sim *kdcSim, confExtra string, ops []cliOp) (obs []cliObs, hung bool, cfgChanged string) {
+	var settings []func(*client.Settings)
+	if !sim.pol.fast {
+		settings = append(settings, client.DisablePAFXFAST(true))
+	}
+	if len(ops) > 0 && ops[0].kind == "assume-pa" {
+		// the application says up front that the KDC wants pre-authentication: the first request already carries
+		// an encrypted timestamp, computed without any hint from the KDC
+		settings = append(settings, client.AssumePreAuthentication(true))
+	}
 	cfg, err := config.NewFromString(sim.conf(confExtra))
 	if err != nil {
 		t.Fatal(err)
@@ -55,7 +66,7 @@ func runClientHistory(t *testing.T, sim *kdcSim, confExtra string, ops []cliOp) 
 	go func() {
 		defer close(done)
 		synctest.Test(t, func(t *testing.T) {
-			cl := client.NewWithPassword(c09User, "TEST.GOKRB5", clientPassword, cfg, client.DisablePAFXFAST(true))
+			cl := client.NewWithPassword(c09User, "TEST.GOKRB5", clientPassword, cfg, settings...)
 			mark := 0
 			for _, op := range ops {
 				o := cliObs{op: op, now: time.Now()}
@@ -85,6 +96,8 @@ func runClientHistory(t *testing.T, sim *kdcSim, confExtra string, ops []cliOp) 
 						}
 					case "sleep":
 						time.Sleep(op.d)
+						o.result = "ok"
+					case "assume-pa":
 						o.result = "ok"
 					}
 				})
@@ -228,6 +241,8 @@ func c10Run(t *testing.T, m *Model, v *Verdict, sc c10Scenario, rng *RNG) {
 			line += fmt.Sprintf(" L|%d|%s", o.now.UnixNano(), rs)
 		case "get":
 			line += fmt.Sprintf(" G|%d|%s|%s|%s", o.now.UnixNano(), snameToks(o.op.spn), XS(resolvedRealm(o.op.spn)), rs)
+		case "assume-pa":
+			line += " P"
 		case "sleep":
 			line += fmt.Sprintf(" S|%d|%s", o.now.Add(o.op.d).UnixNano(), rs)
 			sort.Strings(reqs) // timers that fire at the same instant wake up in no particular order
@@ -306,8 +321,13 @@ func c10Run(t *testing.T, m *Model, v *Verdict, sc c10Scenario, rng *RNG) {
 	// every request, field by field, against the Lean request checker
 	sim.mu.Lock()
 	checked := 0
+	hinted := false // the KDC has told the client which key to pre-authenticate with
 	for _, o := range obs {
 		for _, r := range o.reqs {
+			guess := !hinted
+			if r.kind == "AS" && (r.errCode == 24 || r.errCode == 25) {
+				hinted = true
+			}
 			if checked >= 60 || r.kind == "?" {
 				continue
 			}
@@ -351,6 +371,20 @@ func c10Run(t *testing.T, m *Model, v *Verdict, sc c10Scenario, rng *RNG) {
 			}
 			what := "a request is not well-formed or does not carry the configured values: " + ans
 			ssig := sig + ":request"
+			if r.kind == "AS" && r.pa && guess && sc.ops[0].kind == "assume-pa" {
+				// a request of a client told to assume pre-authentication, before any KDC answer has said which key to
+				// use: the etype, salt and parameters of the timestamp's key are a guess (a KDC's hints correct it)
+				var rest []string
+				for _, is := range strings.Split(ans, "; ") {
+					if !strings.HasPrefix(is, "PA-ENC-TIMESTAMP") {
+						rest = append(rest, is)
+					}
+				}
+				if len(rest) == 0 {
+					continue
+				}
+				ans = strings.Join(rest, "; ")
+			}
 			if r.kind == "AS" && r.pa && r.errCode == 24 && !sc.pol.defaultSalt && strings.Contains(ans, "does not decrypt under the client's key") {
 				ssig = "c10:request:preemptive-pa-default-salt"
 				what = "a pre-emptive PA-ENC-TIMESTAMP (sent because an earlier exchange needed pre-authentication) is keyed with the default salt and parameters instead of the KDC's hints; the KDC_ERR_PREAUTH_FAILED retry repairs it"
@@ -423,6 +457,8 @@ func TestC10(t *testing.T) {
 		rng := NewRNG(Seed()*1000003 + uint64(i))
 		life := lifes[rng.Intn(len(lifes))]
 		pol := simPolicy{maxLife: life, requirePA: rng.Intn(2) == 0, sessionEt: []int32{18, 17, 23, 20}[rng.Intn(4)]}
+		pol.fast = i%3 == 1
+		assume := i%4 == 2
 		conf := " ticket_lifetime = 24h\n"
 		name := "standard"
 		renewCf := 72 * time.Hour
@@ -447,7 +483,13 @@ func TestC10(t *testing.T) {
 			pol.grace = 5 * time.Minute // a KDC honours tickets within its clock skew after their end
 			name += "+grace"
 		}
+		if pol.fast {
+			name += "+fast"
+		}
 		sc := c10Scenario{name: fmt.Sprintf("%s/life=%v/pa=%v/#%d", name, life, pol.requirePA, i), pol: pol, lifeCf: 24 * time.Hour, ops: genHistory(rng, life, 6+rng.Intn(10))}
+		if assume {
+			sc.ops = append([]cliOp{{kind: "assume-pa"}}, sc.ops...)
+		}
 		if strings.Contains(conf, "renew_lifetime") {
 			sc.renewCf = renewCf
 		}
@@ -475,6 +517,14 @@ func TestC10(t *testing.T) {
 			ops: []cliOp{{kind: "login"}, {kind: "get", spn: "HTTP/host.test.gokrb5"}, {kind: "get", spn: "HTTP/host.test.gokrb5"}, {kind: "sleep", d: time.Nanosecond}, {kind: "get", spn: "HTTP/host.test.gokrb5"},
 				{kind: "sleep", d: time.Hour - 2*time.Second}, {kind: "get", spn: "HTTP/host.test.gokrb5"}, {kind: "sleep", d: time.Second - 2*time.Nanosecond}, {kind: "get", spn: "HTTP/host.test.gokrb5"},
 				{kind: "sleep", d: time.Nanosecond}, {kind: "get", spn: "HTTP/host.test.gokrb5"}, {kind: "get", spn: "HTTP/host.test.gokrb5"}}})
+	}
+	// a client told to assume pre-authentication, with the library's default FAST negotiation on and off: the
+	// first request carries a timestamp computed without hints, the retry after the KDC's hints a correct one only
+	for _, fast := range []bool{false, true} {
+		for _, ds := range []bool{false, true} {
+			fixed = append(fixed, c10Scenario{name: fmt.Sprintf("assume-pa/fast=%v/defaultsalt=%v", fast, ds), pol: simPolicy{maxLife: time.Hour, requirePA: true, sessionEt: 18, fast: fast, defaultSalt: ds}, conf: " ticket_lifetime = 24h\n", lifeCf: 24 * time.Hour,
+				ops: []cliOp{{kind: "assume-pa"}, {kind: "login"}, {kind: "get", spn: "HTTP/host.test.gokrb5"}, {kind: "sleep", d: 2 * time.Hour}, {kind: "get", spn: "HTTP/host.test.gokrb5"}, {kind: "login"}}})
+		}
 	}
 	for _, sc := range fixed {
 		if strings.Contains(sc.conf, "renew_lifetime") {
